@@ -189,6 +189,16 @@ def check_fresh(ctx):
            file=INIT, line=glp.lineno)
     # parse_sql obtains them by calling get_lexer_parser in its own body
     calls = [n for n in walk_no_nested(ps) if isinstance(n, ast.Call) and dotted(n.func) == 'get_lexer_parser']
+    if not calls:
+        # ... or in a helper of the module that parse_sql calls (`_parse_statement(text, dialect)`): that helper is then where lexer and parser live
+        mod_fns_ = {n.name: n for n in ctx.src.tree(INIT).body if isinstance(n, ast.FunctionDef)}
+        for c_ in walk_no_nested(ps):
+            if isinstance(c_, ast.Call) and isinstance(c_.func, ast.Name) and c_.func.id in mod_fns_ and c_.func.id != 'get_lexer_parser':
+                h_ = mod_fns_[c_.func.id]
+                hc_ = [n for n in walk_no_nested(h_) if isinstance(n, ast.Call) and dotted(n.func) == 'get_lexer_parser']
+                if hc_:
+                    ps, calls = h_, hc_
+                    break
     ctx.ob('C20.fresh-instances', 'parse_sql:calls-get_lexer_parser', len(calls) >= 1,
            'parse_sql does not obtain its lexer/parser from one call of get_lexer_parser per invocation', file=INIT, line=ps.lineno)
     used = [n for n in walk_no_nested(ps) if isinstance(n, ast.Call) and isinstance(n.func, ast.Attribute)
